@@ -75,6 +75,7 @@ fn make_cfg(profile: &str, tier: Tier, t: &mut Tape) -> Cfg {
             c.probe_k = if thorough { 16 } else { 8 };
         }
         "C03" => {
+            c.byz_pct = t.range(5, 25);
             w.tpi = 8;
             w.restricted_join = 8;
             w.join_rules = 8;
@@ -95,6 +96,7 @@ fn make_cfg(profile: &str, tier: Tier, t: &mut Tape) -> Cfg {
             c.probe_k = if thorough { 24 } else { 10 };
         }
         "C05" => {
+            c.byz_pct = t.range(0, 20);
             c.big_events = true;
             w.message = 25;
             c.tamper_pct = t.range(5, 25);
@@ -209,7 +211,7 @@ impl Engine for FedEngine {
             "C04" => ("non-trivial run: >=1 relay-redacted copy and >=5 redaction probes over special event types", vec!["redact.probes", "fault.relay_redact", "rx.redacted-copy-stored"]),
             "C05" => ("non-trivial run: >=1 event ID recomputed from a redacted copy and >=1 boundary-size event (65535±2 bytes)", vec!["act.boundary-size", "size.refused-above-limit", "fault.relay_redact", "size.boundary.0", "size.boundary.1"]),
             "C06" => ("non-trivial run: >=1 resolve with >=2 conflicted keys, an auth difference of >=2 events and >=1 (power, ts) tie, repeated under permuted arguments / fresh hash keys", vec!["agree.repetitions", "agree.identity-probes", "agree.thread-runs", "agree.node-comparisons", "resolve.power-ts-tie", "resolve.three-or-more-sets", "restart.reloads"]),
-            "C07" => ("non-trivial run: >=1 resolve with conflicted power events compared with rsr2, and >=1 of: (power,ts) tie, mixed power-level ancestry, event rejected during resolution, >=3 state sets", vec!["resolve.compared-with-rsr2", "resolve.power-ts-tie", "resolve.mixed-mainline-ancestry", "resolve.rejected-in-resolution", "resolve.three-or-more-sets", "probe.toposorts", "probe.subset-resolutions"]),
+            "C07" => ("non-trivial run: >=1 resolve with conflicted power events compared with rsr2, and >=1 of: (power,ts) tie, mixed power-level ancestry, event rejected during resolution, >=3 state sets", vec!["resolve.compared-with-rsr2", "resolve.power-ts-tie", "resolve.mixed-mainline-ancestry", "resolve.rejected-in-resolution", "resolve.three-or-more-sets", "resolve.partial-pl-overrides-unconflicted", "probe.toposorts", "probe.subset-resolutions", "probe.thinned-subset-resolutions", "probe.second-room"]),
             "C08" => ("non-trivial run: >=20 candidate events judged against history-reached states, covering >=6 distinct (kind, verdict, rule) cells", vec!["probe.candidates", "byz.twists"]),
             "C09" => ("non-trivial run: member events of >=3 memberships selected and compared, and >=1 perturbation of an entry whose type the rules read for other events", vec!["ni.perturbations", "ni.perturbed-auth-relevant-type", "ni.reads-checked"]),
             _ => ("non-trivial run: >=5 helper/authorization comparisons on a history-reached power-levels event", vec!["plh.compared.user_can_ban_user", "plh.compared.user_can_kick_user", "plh.compared.user_can_unban_user", "plh.compared.user_can_invite", "plh.compared.user_can_send_message", "plh.compared.user_can_send_state", "plh.compared.notifications", "plh.compared.for_user"]),
